@@ -10,6 +10,7 @@ CONSTANTS
   MaxW = 1
   MaxR = 0
   HeightSet <- HeightsM
+  Direct = 0
   Pinned <- PinnedM
   EmitRate = 1
 INIT SInit
@@ -17,4 +18,4 @@ NEXT SNext
 VIEW View
 CHECK_DEADLOCK FALSE
 INVARIANTS TypeOK
-PROPERTIES PC01 PC02 PC03 PC04 PC05 PC06 PC07 PC08 PC11 PC12 PC13
+PROPERTIES PC01 PC02 PC03 PC04 PC05 PC06 PC07 PC08 PC11 PC12 PC13 PC15 PC16
